@@ -679,6 +679,7 @@ func (i *Index) CreateSeriesListIfNotExists(keys [][]byte, names [][]byte, tagsS
 
 				// Some cached bitset results may need to be updated.
 				i.tagValueCache.RLock()
+				i.tagValueCache.noteChange()
 				for j, id := range ids {
 					if id == 0 {
 						continue
@@ -753,6 +754,7 @@ func (i *Index) CreateSeriesIfNotExists(key, name []byte, tags models.Tags) erro
 	// If there are cached sets for any of the tag pairs, they will need to be
 	// updated with the series id.
 	i.tagValueCache.RLock()
+	i.tagValueCache.noteChange()
 	if i.tagValueCache.measurementContainsSets(name) {
 		for _, pair := range tags {
 			// TODO(edd): It's not clear to me yet whether it will be better to take a lock
@@ -801,6 +803,7 @@ func (i *Index) DropSeries(seriesID uint64, key []byte, cascade bool) error {
 	// If there are cached sets for any of the tag pairs, they will need to be
 	// updated with the series id.
 	i.tagValueCache.RLock()
+	i.tagValueCache.noteChange()
 	if i.tagValueCache.measurementContainsSets(name) {
 		for _, pair := range tags {
 			i.tagValueCache.delete(name, pair.Key, pair.Value, seriesID) // Takes a lock on the series id set
@@ -1058,6 +1061,10 @@ func (i *Index) TagValueSeriesIDIterator(name, key, value []byte) (tsdb.SeriesID
 		}
 	}
 
+	// A series created or dropped while the set is computed is applied only to sets
+	// that are already cached, so the set must not be cached after such a change.
+	token := i.tagValueCache.Changes()
+
 	a := make([]tsdb.SeriesIDIterator, 0, len(i.partitions))
 	for _, p := range i.partitions {
 		itr, err := p.TagValueSeriesIDIterator(name, key, value)
@@ -1077,7 +1084,7 @@ func (i *Index) TagValueSeriesIDIterator(name, key, value []byte) (tsdb.SeriesID
 	// Check if the iterator contains only series id sets. Cache them...
 	if ssitr, ok := itr.(tsdb.SeriesIDSetIterator); ok {
 		ss := ssitr.SeriesIDSet()
-		i.tagValueCache.Put(name, key, value, ss)
+		i.tagValueCache.PutIfUnchanged(name, key, value, ss, token)
 	}
 	return itr, nil
 }
